@@ -38,6 +38,27 @@ def gen(rng):
         files.append((u.path, "main", u.pkg + "." + u.name, J.unit_fact(u), u.text))
         for m in u.members:
             if isinstance(m, J.Method) and m.kind == "method": methods.append(u.pkg + "." + u.name + "." + m.name)
+    # ---- a fixed-shape group: a three-step caller chain (graph queries with reverse look-up, repeated) and a
+    # file whose field initialiser calls through a field named like the last parameter of another file
+    def unit(name, members, imports=()):
+        u = J.Unit("main/com/chain/%s.java" % name, "com.chain", list(imports), "class", name, members)
+        J.render(u, rng, rng.choice(["std", "std", "sparse"]))
+        files.append((u.path, "main", "com.chain." + name, J.unit_fact(u), u.text))
+        return u
+    v = rng.choice(["r", "src", "unit"])
+    unit("Vault", [J.Method("save", None, [], [], ["public"])])
+    unit("Keeper", [J.Field(J.T("Vault"), ["vault"], ["private"]),
+                    J.Method("keep", None, [], [J.ExprS(J.Call(J.Name("vault"), "save", []))], ["public"])])
+    unit("Portal", [J.Field(J.T("Keeper"), ["keeper"], ["private"]),
+                    J.Method("handle", None, [], [J.ExprS(J.Call(J.Name("keeper"), "keep", []))], ["public"])])
+    unit("Depot", [J.Method("size", J.T("int"), [], [J.Return(J.Lit("1"))], ["public"])])
+    unit("Gauge", [J.Method("size", J.T("int"), [], [J.Return(J.Lit("2"))], ["public"])])
+    unit("Ledger", [J.Field(J.T("Gauge"), [v], ["private"], {v: J.New(J.T("Gauge"), [])}),
+                    J.Field(J.T("int"), ["rows"], ["private"], {"rows": J.Call(J.Name(v), "size", [])}),
+                    J.Method("show", None, [], [], ["public"])])
+    unit("Loader", [J.Method("first", None, [], [], ["public"]),
+                    J.Method("run", None, [(J.T("Depot"), v)], [J.ExprS(J.Call(J.Name(v), "size", []))], ["public"])])
+    chain_keys = ["com.chain.Loader", "com.chain.Ledger"]
     # ---- bad-smell files
     if rng.random() < 0.7:
         facts, texts, _ = C10.gen(rng, rng.choice(C10.FAMILIES))
@@ -65,6 +86,9 @@ def gen(rng):
         runs += [["bs", idx["bs"]], ["bs", subset(idx["bs"])], ["bs", idx["bs"]]]
     if idx["api"]:
         runs += [["api", idx["api"]], ["api", subset(idx["api"])], ["api", idx["api"]]]
+    ix = {f[2]: i for i, f in enumerate(files)}
+    runs += [["full", [ix[k] for k in chain_keys]], ["full", [ix[chain_keys[1]]]], ["full", [ix[k] for k in chain_keys]]]
+    runs += [["call", "com.chain.Vault.save", "1"]] * 3 + [["rcall", "com.chain.Vault.save"]] * 2
     if methods:
         root = rng.choice(methods)
         runs += [["call", root, "1" if rng.random() < 0.3 else "0"]] * 2
